@@ -363,6 +363,9 @@ func (c *Ctx) typeFacts(term string, t types.Type, alloc string) string {
 		if lo, hi, ok := intRange(u); ok {
 			return fmt.Sprintf("(and (<= %s %s) (<= %s %s))", bigLit(lo), term, term, bigLit(hi))
 		}
+		if u.Info()&types.IsString != 0 {
+			return fmt.Sprintf("(<= (slen %s) 9223372036854775807)", term)
+		}
 		return "true"
 	case *types.Pointer, *types.Map, *types.Chan:
 		if alloc == "" {
@@ -370,7 +373,7 @@ func (c *Ctx) typeFacts(term string, t types.Type, alloc string) string {
 		}
 		return fmt.Sprintf("(or (= %s nil) (< (pobj %s) %s))", term, term, alloc)
 	case *types.Slice:
-		f := fmt.Sprintf("(and (<= 0 (soff %s)) (<= 0 (slen_ %s)) (<= (slen_ %s) (scap %s)) (=> (= (sbase %s) nil) (= %s nilslice))", term, term, term, term, term, term)
+		f := fmt.Sprintf("(and (<= 0 (soff %s)) (<= 0 (slen_ %s)) (<= (slen_ %s) (scap %s)) (<= (scap %s) 9223372036854775807) (=> (= (sbase %s) nil) (= %s nilslice))", term, term, term, term, term, term, term)
 		if alloc != "" {
 			f += fmt.Sprintf(" (or (= (sbase %s) nil) (< (pobj (sbase %s)) %s))", term, term, alloc)
 		}
